@@ -1,8 +1,10 @@
-from stages import endpoints
+from stages import endpoints, httprelay
 
 
 def run(ctx):
     endpoints.run(ctx, endpoints.MONITORS)
+    # HTTP relay: a parked request cancelled while the watch loop hands over the next round must not wedge the relay
+    httprelay.run_c14(ctx, httprelay.MON_C14_HTTP)
     ctx.assumptions += [
         "A request is anything a remote party can put on the wire: every generated message went through proto.Marshal/Unmarshal "
         "(absent nested messages are nil, repeated elements are never nil); HTTP requests are paths on the REST listener.",
